@@ -1367,7 +1367,7 @@ theorem blankName_hyps : blankNameTg.tiers ≠ [] ∧ (∀ t ∈ blankNameTg.tie
     simp only [texts, List.map_cons, List.map_nil, List.mem_cons, List.not_mem_nil, or_false] at hs
     rcases hs with rfl | rfl <;> decide
 
-/-- **a tier NAME with surrounding blanks, regression for A31 (fixed, db5fb4a)**: the tier named `" a "` — a legal in-memory
+/-- **a tier NAME with surrounding blanks, regression for A31 (fixed, 5bcdbd7)**: the tier named `" a "` — a legal in-memory
 object, no constructor strips names — is read back from the short file with its name unchanged, like from the long and the
 two JSON formats (`parseShort_emit` has no hypothesis on names any more).  Before the fix `_fetchTextRow` stripped every text,
 the name row included: `Textgrid` with `IntervalTier(" a ", [(0, 1, "x")], 0, 2)`, `save(fn, "short_textgrid", False)`,
